@@ -22,6 +22,20 @@ def run(ctx):
         br = ctx.go_test_binary("fs/layer", "h_layer_race", race=True)
         if br:
             ctx.correspond(br, "TestVerifC12Conc", "svdriver_c12", "c12conc", env={"VERIF_N": 40})
+    # ---- holder side (fs/fs.go) with a real kernel FUSE mount: oracle only
+    bf = ctx.go_test_binary("fs", "h_fs")
+    if bf:
+        rep = ctx.correspond(bf, "TestVerifC12Mount", "svdriver_c12", "c12mount",
+                             env={"VERIF_N": 2 if quick else 10}, timeout=600)
+        if (rep.get("stats") or {}).get("fuse-unavailable"):
+            ctx.notes.append("fuse-unavailable: /dev/fuse cannot be used in this sandbox; the fs.Mount-level pass was skipped")
+        elif ctx.is_known("double-mount-leaks-layer"):
+            # candidate finding of the unchanged tree, in its own stream; active once it is registered
+            ctx.correspond(bf, "TestVerifC12MountTwice", "svdriver_c12", "c12mount2", timeout=300)
+        else:
+            ctx.notes.append("candidate finding double-mount-leaks-layer (second fs.Mount on a mountpoint in use succeeds and "
+                             "leaks the first layer) has its own probe TestVerifC12MountTwice; it runs once a known: line "
+                             "with that sig is registered")
     return ctx.finish(
         level="proof",
         rule="18 scripted edge histories (shared instance, expiry under a holder, failed blob resolution and failed "
@@ -37,7 +51,11 @@ def run(ctx):
              "nothing left by a failed Resolve, fresh working instance afterwards"
              + ("; plus 6 rounds of an oracle-only concurrent stress (6 resolvers of one cold name, then of one name whose cached layer "
                 "just turned stale, share one resolved instance built once; holders read while others release/expire, everything reclaimed at the end)" if quick
-                else "; plus 40 rounds of that concurrent stress under the race detector"),
+                else "; plus 40 rounds of that concurrent stress under the race detector")
+             + "; plus an fs.Mount-level pass with a real kernel FUSE mount (TTL 1 s, real timers): a mounted layer serves "
+               "byte-exact reads through the kernel, also of never-fetched files, after its cache entry expired and while "
+               "another layer is mounted/unmounted and mounts fail; Unmount and failed Mounts leave nothing after the TTL; "
+               "a remount works",
         assumptions=[
             "Resolve of one name is serialised from before the cache lookup to the end (per-name lock; observed each "
             "run by the concurrent cold/stale-name phases: exactly one layer is built and shared) and its cache "
